@@ -87,6 +87,24 @@ def gen_cases(tier, seed):
             else:
                 t["h"] = 0.35 * dev["film"]["h"]
         cases.append({"device": dev, "post": post, "seed": int(rng.integers(1 << 30)), "cost": {"small": 5, "medium": 15, "large": 60}[size]})
+    for j in range(1 if tier == "quick" else 4):
+        # two contact pads that overlap along the boundary (the second one is the first one shifted by half its extent along the
+        # edge): each terminal's length is the boundary length IT covers, whatever the other one covers
+        dev = zoo.gen_device(rng, n_terminals=2, n_holes=0, probes=0, size="small", film_kind="box", smooth=0)
+        t0 = dev["terminals"][0]
+        t1 = dict(t0, name=dev["terminals"][1]["name"])
+        c0 = list(t0.get("center", [0.0, 0.0]))
+        if t0["w"] < t0["h"]:
+            t0["h"] = min(t0["h"], 0.5 * dev["film"]["h"])
+            t1["h"] = t0["h"]
+            c1 = [c0[0], c0[1] + [0.5, 0.3, -0.5, 0.8][j % 4] * t0["h"]]
+        else:
+            t0["w"] = min(t0["w"], 0.5 * dev["film"]["w"])
+            t1["w"] = t0["w"]
+            c1 = [c0[0] + [0.5, 0.3, -0.5, 0.8][j % 4] * t0["w"], c0[1]]
+        t1["center"] = c1
+        dev["terminals"][1] = t1
+        cases.append({"device": dev, "post": None, "overlapping_terminals": True, "seed": int(rng.integers(1 << 30)), "cost": 5})
     for j in range(2 if tier == "quick" else 8):
         # a film with a sharp reflex notch (a thin wedge cut into one side of a box): the site at the tip of the wedge sees the
         # domain on more than half a turn; wherever the premise holds (locally Delaunay, unencroached boundary edges) its cell is
